@@ -274,6 +274,10 @@ impl BDF {
             }
         }
 
+        // Size of the previous trial step and the rejection count seen at the previous loop head
+        let mut prev_try = Float::INFINITY;
+        let mut rejected_seen = steps.rejected;
+
         'main_loop: loop {
             if steps.total >= nmax {
                 status = Status::NeedLargerNMax;
@@ -295,6 +299,12 @@ impl BDF {
                 lu_is_current = false;  // Step size changed
             }
             if h_try < hmin && hmin > 0.0 {
+                // Nothing smaller than min_step may be tried: when the step that was just
+                // rejected already had that size, the same attempt would repeat for ever
+                if steps.rejected != rejected_seen && prev_try <= hmin {
+                    status = Status::StepSizeTooSmall;
+                    break;
+                }
                 let factor = (hmin / h_try).max(1.0);
                 change_d(&mut d, order, factor, &mut scratch_change);
                 h_try = hmin;
@@ -302,6 +312,8 @@ impl BDF {
                 n_equal_steps = 0;
                 lu_is_current = false;  // Step size changed
             }
+            prev_try = h_try;
+            rejected_seen = steps.rejected;
 
             let mut h_signed = direction * h_try;
             let x_start = x;
